@@ -234,8 +234,12 @@ Record inv_pace (c : cfg) (s : st) : Prop := {
   ip_pc : match pc s with
           | LTop => pending s = None /\ length (paces s) = length (hist s) /\
                     match paces s with (_, _, _, st) :: _ => st = false | [] => True end
+          | LPace e0 =>
+              pending s = None /\ length (paces s) = length (hist s) /\
+              match paces s with (e', _, _, st) :: _ => st = false /\ e' <= e0 | [] => 0 <= e0 end /\
+              e0 <= now s /\ head_time (hist s) <= e0 /\ ~ (0 < du c /\ du c < e0)
           | LSleep u =>
-              exists e w r, pending s = Some (e, count s, w) /\ u = e + Z.max w 0 /\
+              exists e w r, pending s = Some (e, count s, w) /\ e + Z.max w 0 <= u /\
                             paces s = (e, count s, w, false) :: r /\ length r = length (hist s) /\
                             head_time (hist s) <= e
           | LSel1 | LSel2 =>
@@ -258,23 +262,30 @@ Proof.
             repeat match goal with E : pc s = _ |- _ => try rewrite E in * end;
             try assumption; try lia; try exact I; fail);
   match goal with
-       | E : l = Pace _ _ |- _ =>
+       | E : l = CallPace |- _ =>
            step_cases H; norm_guards; try rewrite Heql in PC; destruct PC as (PN & PL & PS);
            constructor; ip_simpl; try assumption; try lia; try exact I;
+           (split; [exact PN|]; split; [exact PL|]; split;
+             [destruct (paces s) as [|[[[e0 h0] w0] st0] r0]; [lia | split; [exact PS | lia]]|];
+            split; [lia|]; split; [lia|];
+            unfold over_deadline in *; intros (A & B);
+            match goal with Hb : (_ && _) = false |- _ =>
+              apply andb_false_iff in Hb as [E1|E1]; [apply Z.ltb_ge in E1 | apply Z.ltb_ge in E1]; lia end)
+       | E : l = Pace _ _ |- _ =>
+           step_cases H; norm_guards; try rewrite Heql in PC; destruct PC as (PN & PL & PS & PE & PH & PDL);
+           constructor; ip_simpl; try assumption; try lia; try exact I;
+           try (destruct (paces s) as [|[[[e0 h0] w0] st0] r0]; cbn in *; intuition lia);
            try (cbn; split; [lia|]; split; [|exact P];
-                destruct (paces s) as [|[[[e0 h0] w0] st0] r0]; [lia | split; [lia | exact PS]]);
-           try (constructor; [|exact D]; unfold over_deadline in *; intros (A & B);
-                match goal with Hb : (_ && _) = false |- _ =>
-                  apply andb_false_iff in Hb as [E1|E1]; [apply Z.ltb_ge in E1 | apply Z.ltb_ge in E1]; lia end);
-           try (unfold over_deadline in *; intros (A & B);
-                match goal with Hb : (_ && _) = false |- _ =>
-                  apply andb_false_iff in Hb as [E1|E1]; [apply Z.ltb_ge in E1 | apply Z.ltb_ge in E1]; lia end);
-           try (exists (now s), w, (paces s); repeat split; lia)
+                destruct (paces s) as [|[[[e0 h0] w0] st0] r0]; [lia | destruct PS; split; [lia | assumption]]);
+           try (constructor; [exact PDL | exact D]);
+           try (eexists _, w, (paces s); repeat split; lia)
        | E : l = Advance _ |- _ =>
            step_cases H; norm_guards; constructor; ip_simpl; try assumption; try lia;
            try (destruct (paces s) as [|[[[e0 h0] w0] st0] r0]; lia);
-           try (destruct (pc s); try exact PC; destruct PC as (e & w & r & A1 & A2 & A3 & A4 & A5);
-                exists e, w, r; repeat split; try assumption; lia)
+           try (destruct (pc s); try exact PC;
+                first [ destruct PC as (e & w & r & A1 & A2 & A3 & A4 & A5);
+                        exists e, w, r; repeat split; try assumption; lia
+                      | destruct PC as (PN & PL & PS & PE & PH & PDL); repeat split; try assumption; lia ])
        | E : l = Wake |- _ =>
            step_cases H; norm_guards; try rewrite Heql in PC; destruct PC as (e & w & r & A1 & A2 & A3 & A4 & A5);
            constructor; ip_simpl; try assumption;
@@ -345,7 +356,7 @@ Qed.
 
 Definition pc_rank (p : lpc) : nat :=
   match p with
-  | LTop | LSleep _ | LSel1 | LSel2 => 0
+  | LTop | LPace _ | LSleep _ | LSel1 | LSel2 => 0
   | LCloseTicks => 1 | LWait => 2 | LCloseRes => 3 | LFinalStop => 4 | LExited => 5
   end.
 
@@ -403,7 +414,7 @@ Proof.
                  rewrite Z.eqb_refl, RC. cbn. reflexivity.
            ++ exists (Complete x). eexists. split; [reflexivity|]. unfold step. rewrite Ef. cbn [memz].
               rewrite Z.eqb_refl. cbn. reflexivity.
-        -- destruct (memz x (fails c)) eqn:Ff.
+        -- destruct (memz (tcalls s) (fails c)) eqn:Ff.
            ++ exists (TargeterFail x). eexists. split; [reflexivity|]. unfold step. rewrite Et. cbn [memz].
               rewrite Z.eqb_refl, Ff. cbn. reflexivity.
            ++ exists (TargeterOk x). eexists. split; [reflexivity|]. unfold step. rewrite Et. cbn [memz].
